@@ -5,7 +5,7 @@ MAXW = (1 << 64) - 1
 
 class Case:
     def __init__(self, cid, kind, vals=None, start=0, stop=0, script=None, hint="inexact", adapt="none",
-                 threads=None, owner="drop", sched=None, frozen=None, iters=1, mode="release", clonepanic=None, droppanic=None, zst=False, tags=None, pod=False, spare=0, inpanic=None, clonepoint=False, rawskip=False, clonefrom=False, relocate=None, zstiter=False, reenter=None, nested=False, fat=0):
+                 threads=None, owner="drop", sched=None, frozen=None, iters=1, mode="release", clonepanic=None, droppanic=None, zst=False, tags=None, pod=False, spare=0, inpanic=None, clonepoint=False, rawskip=False, clonefrom=False, relocate=None, zstiter=False, reenter=None, nested=False, fat=0, viafrom=False):
         self.id = cid
         self.kind = kind            # slice vecref arrref vec array range iter iterref
         self.vals = list(vals or [])
@@ -30,6 +30,7 @@ class Case:
         self.reenter = reenter          # kinds iter / iterref: the k-th call of the wrapped `next()` queries the concurrent iterator around it
         self.nested = nested            # kind iter: the iterator under test wraps `values()` of an inner concurrent iterator over the probe
         self.fat = fat                  # element size in bytes (128 | 65536): large elements with a destructor / large Copy elements under copied()
+        self.viafrom = viafrom          # built with `ConIterOfX::from(source)` instead of `into_con_iter` (slice, vec, array, range, iter)
         self.rawskip = rawskip          # `skip` = the public `AtomicIter::early_exit` instead of `skip_to_end`
         self.clonepoint = clonepoint    # `Clone::clone` of an element is a scheduling point (impl-only cases)
         self.inpanic = list(inpanic or [])   # threads whose ops run inside a destructor during an unrelated unwinding
@@ -128,6 +129,8 @@ class Case:
             L.append("clonepoint")
         if self.rawskip:
             L.append("rawskip")
+        if self.viafrom:
+            L.append("viafrom")
         if self.fat:
             L.append("fat %d" % self.fat)
         if self.nested:
@@ -212,6 +215,8 @@ def parse_cases(text):
             cur.clonepoint = True
         elif toks[0] == "rawskip":
             cur.rawskip = True
+        elif toks[0] == "viafrom":
+            cur.viafrom = True
         elif toks[0] == "fat":
             cur.fat = int(toks[1])
         elif toks[0] == "nested":
@@ -264,7 +269,7 @@ def make_source(rng, cid, kind, n, adapt="none", hint=None, tail=None):
         script = ["S%d" % v for v in vals]
         if tail:
             script += tail
-        return Case(cid, kind, script=script, hint=hint or rng.choice(["exact", "inexact", "unbounded"]), adapt=adapt)
+        return Case(cid, kind, script=script, hint=hint or rng.choice(["exact", "exact", "inexact", "inexact", "unbounded", "unbounded", "maxnone"]), adapt=adapt)
     return Case(cid, kind, vals=distinct_vals(rng, n), adapt=adapt)
 
 
